@@ -213,6 +213,8 @@ pub struct Gen<'a> {
     /// > 0 inside the body of a while whose condition draws from random(): a resetRandom there
     /// would make the condition draw the same value for ever
     no_reset: usize,
+    /// first bindings of while counters that were moved to the top of the program
+    hoisted: Vec<Item>,
 }
 
 impl<'a> Gen<'a> {
@@ -938,6 +940,34 @@ impl<'a> Gen<'a> {
             ));
             return out;
         }
+        if (kind == 2 || kind == 3) && !self.readable.is_empty() && self.cfg.reads > 0 {
+            // a counting while whose condition ALSO reads a device output on every check
+            // (`(w < k) & (Q | 1)`), with a checked row in the body so that the value is a fresh
+            // one each time: the first check passes, a later one may meet Z / X (after seeded
+            // change X-C04-agent21-2: the re-check of a while condition losing its state on error)
+            let w = self.fresh_name();
+            let k = self.r.range(1, 3);
+            let q = self.r.pick(&self.readable).clone();
+            let cond = Expr::Bin(
+                BinOp::And,
+                Box::new(Expr::Group(Box::new(Expr::Bin(BinOp::Lt, Box::new(Expr::Ident(w.clone())), Box::new(Expr::Num(k, Radix::Dec)))))),
+                Box::new(Expr::Group(Box::new(Expr::Bin(BinOp::Or, Box::new(Expr::Ident(q)), Box::new(Expr::Num(1, Radix::Dec)))))),
+            );
+            out.push(Item::Let(w.clone(), Expr::Num(0, Radix::Dec)));
+            self.frames.last_mut().unwrap().push(w.clone());
+            self.protected.push(w.clone());
+            let step = Item::Let(w.clone(), Expr::Bin(BinOp::Add, Box::new(Expr::Ident(w.clone())), Box::new(Expr::Num(1, Radix::Dec))));
+            // the row is drawn BEFORE the body: it may stand anywhere in the body and must not
+            // read a name that the body introduces further down
+            let es: Vec<Entry> = self.gen_entries();
+            self.row_id += 1;
+            let row = Item::Row(self.row_id, es);
+            let mut body = self.in_while_body(depth, Some(step));
+            let pos = self.r.below(body.len() + 1);
+            body.insert(pos, row);
+            out.push(Item::While(cond, body));
+            return out;
+        }
         let w = self.fresh_name();
         let up = self.r.chance(1, 2);
         let k = self.r.range(0, 3);
@@ -966,11 +996,24 @@ impl<'a> Gen<'a> {
                 ),
             )
         };
-        out.push(Item::Let(w.clone(), init));
-        self.frames.last_mut().unwrap().push(w.clone());
+        // Inside a loop the counter's first binding is now and then hoisted to the very top of the
+        // program: the loop body then holds no `let` of its own besides what sits inside the while
+        // (after seeded change W-C01-agent20-1: a shallow scan for "does this body bind anything")
+        if self.frames.len() > 1 && self.in_while == 0 && self.r.chance(250, 1000) {
+            self.hoisted.push(Item::Let(w.clone(), init));
+            self.frames[0].push(w.clone());
+        } else {
+            out.push(Item::Let(w.clone(), init));
+            self.frames.last_mut().unwrap().push(w.clone());
+        }
         self.protected.push(w.clone());
         let body = self.in_while_body(depth, Some(Item::Let(w.clone(), stepx)));
-        out.push(Item::While(cond, body));
+        if self.r.chance(150, 1000) {
+            // the same condition twice: a while directly inside a while, the step two levels down
+            out.push(Item::While(cond.clone(), vec![Item::While(cond, body)]));
+        } else {
+            out.push(Item::While(cond, body));
+        }
         out
     }
 
@@ -1137,6 +1180,23 @@ impl<'a> Gen<'a> {
                 Expr::Num(self.r.range(0, 9), Radix::Dec)
             };
         }
+        // function calls and unary operators inside a declaration: their arguments are "blind to
+        // variables" like the rest of it (after seeded change W-C14-agent20-7: the condition of an
+        // ite evaluated with the variables visible)
+        match self.r.below(10) {
+            0 => {
+                let c = self.declare_expr(depth - 1);
+                let a = self.declare_expr(depth - 1);
+                let b = self.declare_expr(depth - 1);
+                return Expr::Ite(Box::new(c), Box::new(a), Box::new(b));
+            }
+            1 => {
+                let op = *self.r.pick(&[UnOp::Neg, UnOp::Not, UnOp::BitNot]);
+                let e = self.declare_expr(depth - 1);
+                return Expr::Un(op, Box::new(e));
+            }
+            _ => {}
+        }
         let op = *self.r.pick(&[
             BinOp::Add,
             BinOp::Sub,
@@ -1147,6 +1207,8 @@ impl<'a> Gen<'a> {
             BinOp::Lt,
             BinOp::Mul,
             BinOp::Shr,
+            BinOp::Ne,
+            BinOp::Ge,
         ]);
         let l = self.declare_expr(depth - 1);
         let r = self.declare_expr(depth - 1);
@@ -1260,6 +1322,7 @@ pub fn generate(r: &mut Prng, cfg: &GenCfg) -> Case {
         protected: vec![],
         last_row: None,
         no_reset: 0,
+        hoisted: vec![],
     };
     g.gen_config();
     let layout = g.gen_layout_and_readable();
@@ -1293,6 +1356,10 @@ pub fn generate(r: &mut Prng, cfg: &GenCfg) -> Case {
     let n_virt = g.virt_names.len();
     g.gen_header(n_virt);
     let mut items = g.block(0);
+    if !g.hoisted.is_empty() {
+        let h = std::mem::take(&mut g.hoisted);
+        items.splice(0..0, h);
+    }
     // make sure there is at least one row somewhere at top level (except now and then: a
     // program without any row is legal - the constructor's call is then the only one)
     if !items
